@@ -251,14 +251,24 @@ def execute(chunk):
                 for hist in p['histories']:
                     m = build(p, p['seed'])
                     temps = []
+                    buffers = None
                     for h in hist:
                         dh = data_for(p, h['dseed'], h['n'], p['task'], noise=h.get('noise', 0.1))
                         with quiet():
                             # an earlier fit may have been called with per-call leaf options: they belong to that call only
                             m.fit(dh['X'], dh['y'], dh['Xv'], dh['yv'], **h.get('fit_kw', {}))
                         temps.append(m.split_temperature)
+                        buffers = dh if h.get('inplace_refresh') else None
+                    use = data
+                    if buffers is not None and all(buffers[k_].shape == data[k_].shape and buffers[k_].dtype == data[k_].dtype
+                                                   for k_ in ('X', 'y', 'Xv', 'yv')):
+                        # rolling-window retraining: the caller's pre-allocated tensors of the earlier fit are overwritten in place with
+                        # the new data set and handed over again (same objects, same addresses and shapes, other contents)
+                        for k_ in ('X', 'y', 'Xv', 'yv'):
+                            buffers[k_].copy_(data[k_])
+                        use = dict(data, X=buffers['X'], y=buffers['y'], Xv=buffers['Xv'], yv=buffers['yv'])
                     xc.seed_all(p['seed2'])
-                    before, entry = fit_with_entry_capture(m, data)
+                    before, entry = fit_with_entry_capture(m, use)
                     out = outputs(m, data, is_class)
                     n_cmp += 1
                     info['histories'].append({'earlier_fits': len(hist), 'earlier_temperatures': temps, 'temperature': m.split_temperature})
@@ -393,6 +403,8 @@ def gen_cases(run):
             if k % 3 == 1:
                 for hh in p['histories']:
                     hh[0]['fit_kw'] = {'center_grads': True}
+            # a third history: one earlier fit on a data set of the same shape whose tensors are then refreshed in place
+            p['histories'].append([dict(mk(p['n'], 0.1), inplace_refresh=True)])
             cases.append(p)
     return cases
 
